@@ -42,7 +42,7 @@ def _case_step(cfg, state, velocity, forcing, steps, seed, backend):
     sim = simcfg.make_sim(c)
     # the impulse patterns sit inside / at the edge of the zone on purpose
     # 'generic' / 'checker' fill the WHOLE grid including the outermost ring (every admissible state)
-    margin = 0 if state in ("generic", "checker") else max(1, c["width"])
+    margin = 0 if state in ("generic", "checker", "single-component") else max(1, c["width"])
     simcfg.load_state(sim, c, state, velocity, forcing, margin=margin, seed=seed)
     dx = float(sim.dx)
     tag = f"{kind}"
